@@ -1321,7 +1321,8 @@ fn judge(o: &mut Oracle, h: &Handled, col: &Collected, in_reload_window: bool, t
                 if need > 8192 {
                     o.fail(&["C18", "C06"], "reply-fits-buffer", "announce-reply-exceeds-buffer", format!("announce from {} (want {}, max_response_peers {}, {} other stored peers): the {}-byte reply does not fit the 8192-byte buffer and was dropped", src, want, scn.max_response_peers, others, need));
                 } else {
-                    o.fail(&["C06", "C05"], "one-reply-for-well-formed-request", "announce-unanswered", format!("well-formed announce from {} with a valid connection id got no reply (worker {})", src, tname(h.tid)));
+                    // an accepted request whose computed reply never leaves the tracker is also C18's business
+                    o.fail(&["C06", "C05", "C18"], "one-reply-for-well-formed-request", "announce-unanswered", format!("well-formed announce from {} with a valid connection id got no reply (worker {}; the reply would have {} bytes)", src, tname(h.tid), need));
                 }
                 return;
             };
@@ -1416,7 +1417,7 @@ fn judge(o: &mut Oracle, h: &Handled, col: &Collected, in_reload_window: bool, t
                 // the reply may have been too large for the send buffer: that is C18's business
                 let need = 8 + 12 * n_expected;
                 let sig = if need > 8192 { "scrape-reply-exceeds-buffer" } else { "scrape-unanswered" };
-                o.fail(if need > 8192 { &["C18", "C06"] } else { &["C06"] }, if need > 8192 { "reply-fits-buffer" } else { "one-reply-for-well-formed-request" }, sig, format!("well-formed scrape of {} hashes from {} with a valid connection id got no reply", ihs.len(), src));
+                o.fail(if need > 8192 { &["C18", "C06"] } else { &["C06", "C18"] }, if need > 8192 { "reply-fits-buffer" } else { "one-reply-for-well-formed-request" }, sig, format!("well-formed scrape of {} hashes from {} with a valid connection id got no reply", ihs.len(), src));
                 return;
             };
             expect_tx(o, tx);
